@@ -1,6 +1,7 @@
 package props
 
 import (
+	"fmt"
 	"testing"
 
 	"pgregory.net/rapid"
@@ -154,4 +155,52 @@ func propC11(t *rapid.T) {
 		})
 	}
 	vt.Run(t, c11Rec, c, checkC11)
+}
+
+// TestC11Large: 9001 and 20003 services (every third one also in calendar.txt) with four exception rows each, the rows of
+// calendar_dates.txt ordered by DATE so that the rows of one service lie thousands of rows apart.
+func TestC11Large(t *testing.T) {
+	for _, n := range []int{9001, 20003} {
+		n := n
+		t.Run(fmt.Sprint(n), func(outer *testing.T) {
+			fail := ""
+			defer func() {
+				if fail != "" {
+					outer.Fatalf("%s", fail)
+				}
+			}()
+			rapid.Check(outer, func(t *rapid.T) {
+				o := sgen.DefaultGenOpts()
+				f, _ := sgen.GenFeed(t, o)
+				f.Agencies[0].TZ = rapid.SampledFrom([]string{"America/New_York", "Europe/London", "UTC", "Asia/Tokyo"}).Draw(t, "zone")
+				f.Calendar, f.CalendarDates = nil, nil
+				for _, tr := range f.Trips {
+					_ = tr
+				}
+				sid := func(i int) string { return fmt.Sprintf("svc%05d", i) }
+				for i := 0; i < n; i++ {
+					if i%3 == 0 {
+						f.Calendar = append(f.Calendar, sgen.CalendarRow{ServiceID: sid(i), Days: [7]int{1, 1, 1, 1, 1, 0, 0}, Start: sgen.Date{Y: 2024, M: 2, D: 1}, End: sgen.Date{Y: 2024, M: 10, D: 28}})
+					}
+				}
+				for k, d := range []sgen.Date{{Y: 2024, M: 1, D: 5}, {Y: 2024, M: 6, D: 15}, {Y: 2024, M: 6, D: 16}, {Y: 2024, M: 12, D: 24}} {
+					for i := 0; i < n; i++ {
+						f.CalendarDates = append(f.CalendarDates, sgen.CalDateRow{ServiceID: sid(i), Date: d, ExType: []string{"1", "2", "1", "2"}[(k+i)%4]})
+					}
+				}
+				for i := range f.Trips {
+					f.Trips[i].ServiceID = sid(i % n)
+				}
+				c := CaseStatic{Feed: f, Pres: sgen.Canonical()}
+				c.Env = genEnv(t)
+				c11Rec.Eval(fmt.Sprintf("large:services>=%d", n))
+				c11Rec.NontrivialCase(vt.Fingerprint([]any{n, f.Agencies[0].TZ}), func() any {
+					return map[string]any{"services": n, "calendar_dates_rows": len(f.CalendarDates), "order": "by date"}
+				})
+				if msg := vt.Try(c11Rec, c, checkC11); msg != "" && fail == "" {
+					fail = msg
+				}
+			})
+		})
+	}
 }
